@@ -80,6 +80,33 @@ void h_ERRORreport(void)
     __CPROVER_assert(!(counts && LibErrors[in_errnum].severity >= SEVERITY_EXIT), "C04.E1 fatal diagnostics do not return");
 }
 
+/* must-fail canary (vacuity guard) for h_ERRORreport: with the same preconditions and the same contract instrumentation the call returns
+ * for an enabled diagnostic of the ERROR class, so the claim that this never happens has to be refuted */
+void h_canary_ERRORreport_reachable(void)
+{
+    IN(int, in_errnum);
+    IN_BOOL(in_override);
+    IN_BOOL(in_occurred);
+    IN_BOOL(in_buffer);
+    IN(int, in_lines);
+    IN(int, in_sev);
+    IN_ARR(char, in_a1, 4);
+    IN_ARR(char, in_a2, 4);
+    __CPROVER_assume(in_errnum >= 0 && in_errnum < NERR);
+    __CPROVER_assume(in_lines >= 0 && in_lines <= ERROR_MAX_ERRORS);
+    in_a1[3] = 0; in_a2[3] = 0;
+    LibErrors[in_errnum].override = in_override;
+    LibErrors[in_errnum].severity = (enum Severity)in_sev; /* any table content */
+    ERRORoccurred = in_occurred;
+    __ERROR_buffer_errors = in_buffer;
+    ERROR_with_lines = in_lines;
+    g_want_va = 0; g_fmt_calls = 0; EXPRESSfail = NULL;
+    ERRORreport((enum ErrorCode)in_errnum, in_a1, in_a2);
+    /* reached only when the call returned */
+    bool counts = in_errnum != SUBORDINATE_FAILED && !in_override && LibErrors[in_errnum].severity >= SEVERITY_ERROR;
+    __CPROVER_assert(!(counts && ERRORoccurred), "canary: no enabled diagnostic of the ERROR class is ever reported and returned from (must be refuted)");
+}
+
 
 void h_set_all_warnings(void)
 {
